@@ -203,6 +203,32 @@ pub fn matches_image(d: &Decoded, image: &[u8]) -> Result<(), String> {
     Ok(())
 }
 
+/// A plain encoder (own code): what some earlier tool run could have left at an output path.
+/// 16-byte data records, an extended linear address record at every 64 KiB, LF line ends.
+pub fn encode(image: &[u8]) -> String {
+    fn rec(out: &mut String, addr: u16, typ: u8, data: &[u8]) {
+        let mut bytes = vec![data.len() as u8, (addr >> 8) as u8, addr as u8, typ];
+        bytes.extend_from_slice(data);
+        let sum = bytes.iter().fold(0u8, |a, b| a.wrapping_add(*b));
+        bytes.push(sum.wrapping_neg());
+        out.push(':');
+        for b in bytes {
+            out.push_str(&format!("{:02X}", b));
+        }
+        out.push('\n');
+    }
+    let mut out = String::new();
+    for (i, chunk) in image.chunks(16).enumerate() {
+        let addr = i * 16;
+        if addr % 0x1_0000 == 0 && addr > 0 {
+            rec(&mut out, 0, 4, &[(addr >> 24) as u8, (addr >> 16) as u8]);
+        }
+        rec(&mut out, (addr % 0x1_0000) as u16, 0, chunk);
+    }
+    rec(&mut out, 0, 1, &[]);
+    out
+}
+
 #[cfg(test)]
 mod tests {
     use super::*;
@@ -278,5 +304,13 @@ mod tests {
         diff[17] ^= 1;
         assert!(matches_image(&d, &diff).is_err());
         assert!(matches_image(&decode(b":00000001FF\n").unwrap(), &[]).is_ok());
+    }
+    #[test]
+    fn encode_round_trip() {
+        for n in [0usize, 1, 15, 16, 17, 600, 65535, 65536, 65537, 70000] {
+            let img: Vec<u8> = (0..n).map(|i| (i * 7 + 3) as u8).collect();
+            let d = decode(encode(&img).as_bytes()).expect("decodes");
+            assert!(matches_image(&d, &img).is_ok(), "length {}", n);
+        }
     }
 }
